@@ -29,7 +29,11 @@ type c05Conn struct {
 	writes      int
 	failWriteAt int // 1-based index of the write that fails (0: never)
 	detecting   bool // reads with an armed deadline time out when nothing has arrived (detection windows)
+	inClosed    bool // the peer has shut down its sending side (set by closeIn)
+	eofWithLast bool // like TLS / AEAD streams: the final bytes are returned together with io.EOF when the end is already known
 }
+
+func (c *c05Conn) closeIn() { c.inClosed = true; close(c.in) }
 
 type c05Timeout struct{}
 
@@ -57,6 +61,9 @@ func (c *c05Conn) Read(p []byte) (int, error) {
 	}
 	n := copy(p, c.rest)
 	c.rest = c.rest[n:]
+	if c.eofWithLast && len(c.rest) == 0 && c.inClosed && len(c.in) == 0 {
+		return n, io.EOF
+	}
 	return n, nil
 }
 func (c *c05Conn) Write(p []byte) (int, error) {
@@ -136,15 +143,18 @@ func Verif_C05_relay() {
 	}
 	wantUp := append(append(append([]byte{}, prefix...), c1...), c2...)
 	wantDown := append(append([]byte{}, s1...), s2...)
+	// either side may be a stream that hands out its last bytes together with the end-of-stream mark
+	client.eofWithLast = vs.Choice("eofWithLastBytes", 2) == 1
+	upstream.eofWithLast = client.eofWithLast
 	go func() { // the client
 		client.in <- c1
 		client.in <- c2
-		close(client.in)
+		client.closeIn()
 	}()
 	go func() { // the upstream
 		upstream.in <- s1
 		upstream.in <- s2
-		close(upstream.in)
+		upstream.closeIn()
 	}()
 	var err error
 	done := false
